@@ -54,7 +54,7 @@ def extra_jobs(tier, seed, env):
 
 
 def run(tier, seed, only=None):
-    if only and not only["kernel"].startswith("s<") and not only["kernel"][0].isdigit() and not only["kernel"].startswith(("i", "u")):
+    if only and not only["kernel"].startswith("s<") and not only["kernel"][0].isdigit() and not only["kernel"].startswith(("i", "u", "big ")):
         # elastic / wide kernel replay
         res = core.Result("C03", tier, seed)
         ks = [k for k in elastic_cmp_kernels(tier, only.get("seed", seed)) if k[0] == only["kernel"]]
@@ -64,7 +64,7 @@ def run(tier, seed, only=None):
             res.absorb(j)
     else:
         res = c01.run_prop("C03", tier, seed, only, extra_jobs=extra_jobs)
-    return res.finish(c01.RULES["C03"] + c01.COMMON_RULE + " Every comparison case also checks mutual consistency of the six operators (exactly one of <,==,> holds; <=, >=, != derived) independently of the oracle; "
+    return res.finish(c01.RULES["C03"] + c01.COMMON_RULE + c01.big.RULE + " Every comparison case also checks mutual consistency of the six operators (exactly one of <,==,> holds; <=, >=, != derived) independently of the oracle; "
                       "comparison with a built-in integer must equal comparison with that integer wrapped, and the by-value order.", assumptions=[
         "exact comparison of rep*radix^exponent on 256-bit integers", "scaled_integer over built-in reps of different signedness: expected answer is the built-in comparison of the exponent-aligned reps (statement's last sentence)",
         "built-in reps: exponent alignment of the coarser operand must fit its promoted rep (else out of domain)"])
